@@ -11,6 +11,7 @@ import spec as SP
 import layout
 import effects
 import common
+import totality as T
 import callgraph as CG
 from q import res, is_param, is_param_path, field_path, strip_casts, show, alts, walk, expand
 
@@ -71,7 +72,66 @@ def dispatch_always_decodes(ctx, rule, exempt=()):
     ctx.floor('dispatch arms examined for unconditional decoding', n, 9 - len(exempt))
 
 
-def no_reordering(ctx, rule, elem_types=('layer::LayerData', 'tags::Tag', 'slice::Slice', 'slice::SliceKey')):
+def framing_rejections(ctx, rule, bindings=None):
+    """chunk framing accepts every conformant chunk (see the comment in the body)"""
+    fx = ctx.fx
+    if bindings is None:
+        import rule as R
+        import spec as _SP
+        spec = _SP.load_spec()
+        tmp = R.Ctx('tmp', fx, 'quick')
+        tmp.root = getattr(ctx, 'root', None)
+        bindings, _ = layout.check_layout(tmp, spec, 'asefile::parse::Chunk::read', spec['decoders']['asefile::parse::Chunk::read'], rule='tmp')
+    # chunk framing accepts every conformant chunk: the only sizes rejected are those below the 6 byte chunk header and those
+    # beyond what the frame still holds.  A tighter test (`<= 6`: seed C01-h, an upper cap, an alignment demand) makes a
+    # well-formed file with such a chunk unloadable; what happens to a *malformed* size is C04/C16's business, not this rule's
+    cr = ctx.anchor('asefile::parse::Chunk::read')
+    if cr is not None:
+        view = fx.inlined_view(cr.name, ['asefile::parse::check_chunk_bytes']) or cr
+        HEADER = 6
+        nrej = 0
+
+        def is_size(t):
+            t = layout.unwrap_value(q.expand(t, fx, 2, layout.noinl(fx)))[0]
+            return layout.is_read_term(t) and bindings.get(t[3], ('', ''))[1] == 'chunk_size'
+        for sw in q.switches_on(view, lambda d: True):
+            tm = view.blocks[sw]['term']
+            if tm['ty'] != 'bool':
+                continue
+            cond = q.switch_cond(view, sw)
+            succs = view.cfg.succ[sw]
+            errs = [s_ for s_ in succs if q.arm_always_err(view, s_)]
+            if len(errs) != 1 or len(succs) != 2:
+                continue
+            vals = q.edge_value(view, sw, errs[0])
+            hs = q.holds_both(cond, q.bool_outcome(view, sw, vals if isinstance(vals, list) else [vals]))
+            hs = [(op, l, r_) for op, l, r_ in hs if is_size(l)]
+            if not hs:
+                if any(is_size(x) for x in walk(cond) if isinstance(x, tuple) and x and x[0] in ('call', 'cast', 'field')):
+                    nrej += 1
+                    ctx.inst(rule, 'framing#unknown-rejection', False, 'Chunk::read rejects on a condition over the chunk size that is neither '
+                             '`size < 6` nor `size > bytes left`: %s' % show(cond)[:100], tm.get('span'), key=cr.name + '|%s|framing|unknown' % rule)
+                continue
+            nrej += 1
+            op, l, r_ = hs[0]
+            k = q.const_fold(r_)
+            if k is not None:
+                below = {'Lt': k, 'Le': k + 1}.get(op)
+                ok = below == HEADER
+                what = 'sizes below %s' % below if below is not None else 'sizes %s %s' % (op, k)
+                ctx.inst(rule, 'framing#min-size', ok, 'Chunk::read rejects %s; a conformant chunk may be as small as its %d byte header, so exactly '
+                         'the sizes below %d may be rejected' % (what, HEADER, HEADER), tm.get('span'), key=cr.name + '|%s|framing|min' % rule)
+            else:
+                # against the bytes the frame still holds: only "more than is left" may be rejected
+                avail = any(isinstance(x, tuple) and len(x) == 3 and x[0] == 'param' and view.locals[x[1]]['ty'].replace(' ', '') in ('&muti64', 'i64')
+                            for x in walk(r_)) and not any(x[0] in ('bin', 'const') for x in walk(r_) if isinstance(x, tuple) and x)
+                ok = op == 'Gt' and avail
+                ctx.inst(rule, 'framing#available', ok, 'Chunk::read rejects size %s %s; only size > bytes left in the frame may be rejected'
+                         % (op, show(r_)[:60]), tm.get('span'), key=cr.name + '|%s|framing|avail' % rule)
+        ctx.floor('framing rejections on the chunk size', nrej, 2)
+
+
+def no_reordering(ctx, rule, elem_types=('layer::LayerData', 'tags::Tag', 'slice::Slice', 'slice::SliceKey', 'parse::Chunk')):
     """no sort / reverse / insert / remove / rev .. anywhere in the crate on the collections whose order is the file's order"""
     fx = ctx.fx
     nre = 0
@@ -89,7 +149,7 @@ def no_reordering(ctx, rule, elem_types=('layer::LayerData', 'tags::Tag', 'slice
                 for x in walk(at[0]):
                     if isinstance(x, tuple) and x[0] == 'field':
                         names.add(x[2])
-                hit = (names & set(ORDERED_FIELDS)) if len(elem_types) == 4 else set()
+                hit = (names & set(ORDERED_FIELDS)) if len(elem_types) >= 4 else set()
                 aty = c.args[0]['p']['ty'] if c.args and c.args[0]['k'] in ('copy', 'move') else ''
                 for et in elem_types:
                     if ('<%s>' % et) in aty or ('[%s]' % et) in aty or ('<%s,' % et) in aty:
@@ -349,52 +409,7 @@ def run(ctx):
             ctx.inst('O3', 'Chunk.data', ok, 'Chunk.data = %s; must be the payload buffer read for this chunk' % show(dt)[:100], st['span'],
                      key=cr.name + '|O3|data')
 
-    # chunk framing accepts every conformant chunk: the only sizes rejected are those below the 6 byte chunk header and those
-    # beyond what the frame still holds.  A tighter test (`<= 6`: seed C01-h, an upper cap, an alignment demand) makes a
-    # well-formed file with such a chunk unloadable; what happens to a *malformed* size is C04/C16's business, not this rule's
-    if cr is not None:
-        view = fx.inlined_view(cr.name, ['asefile::parse::check_chunk_bytes']) or cr
-        HEADER = 6
-        nrej = 0
-
-        def is_size(t):
-            t = layout.unwrap_value(q.expand(t, fx, 2, layout.noinl(fx)))[0]
-            return layout.is_read_term(t) and bindings.get(t[3], ('', ''))[1] == 'chunk_size'
-        for sw in q.switches_on(view, lambda d: True):
-            tm = view.blocks[sw]['term']
-            if tm['ty'] != 'bool':
-                continue
-            cond = q.switch_cond(view, sw)
-            succs = view.cfg.succ[sw]
-            errs = [s_ for s_ in succs if q.arm_always_err(view, s_)]
-            if len(errs) != 1 or len(succs) != 2:
-                continue
-            vals = q.edge_value(view, sw, errs[0])
-            hs = q.holds_both(cond, q.bool_outcome(view, sw, vals if isinstance(vals, list) else [vals]))
-            hs = [(op, l, r_) for op, l, r_ in hs if is_size(l)]
-            if not hs:
-                if any(is_size(x) for x in walk(cond) if isinstance(x, tuple) and x and x[0] in ('call', 'cast', 'field')):
-                    nrej += 1
-                    ctx.inst('O3', 'framing#unknown-rejection', False, 'Chunk::read rejects on a condition over the chunk size that is neither '
-                             '`size < 6` nor `size > bytes left`: %s' % show(cond)[:100], tm.get('span'), key=cr.name + '|O3|framing|unknown')
-                continue
-            nrej += 1
-            op, l, r_ = hs[0]
-            k = q.const_fold(r_)
-            if k is not None:
-                below = {'Lt': k, 'Le': k + 1}.get(op)
-                ok = below == HEADER
-                what = 'sizes below %s' % below if below is not None else 'sizes %s %s' % (op, k)
-                ctx.inst('O3', 'framing#min-size', ok, 'Chunk::read rejects %s; a conformant chunk may be as small as its %d byte header, so exactly '
-                         'the sizes below %d may be rejected' % (what, HEADER, HEADER), tm.get('span'), key=cr.name + '|O3|framing|min')
-            else:
-                # against the bytes the frame still holds: only "more than is left" may be rejected
-                avail = any(isinstance(x, tuple) and len(x) == 3 and x[0] == 'param' and view.locals[x[1]]['ty'].replace(' ', '') in ('&muti64', 'i64')
-                            for x in walk(r_)) and not any(x[0] in ('bin', 'const') for x in walk(r_) if isinstance(x, tuple) and x)
-                ok = op == 'Gt' and avail
-                ctx.inst('O3', 'framing#available', ok, 'Chunk::read rejects size %s %s; only size > bytes left in the frame may be rejected'
-                         % (op, show(r_)[:60]), tm.get('span'), key=cr.name + '|O3|framing|avail')
-        ctx.floor('framing rejections on the chunk size', nrej, 2)
+    framing_rejections(ctx, 'O3', bindings)
 
     # palette entries are among the stored attributes: ids of new-format entries, cumulative packet offsets and component scaling of
     # the two legacy chunk kinds (C11's decoder rules, run here as L2; seed C01-j advanced the legacy offset by the packet length)
@@ -408,6 +423,9 @@ def run(ctx):
     import C15 as _c15m
     import rule as _R2
     _c15m.matchers(_R2.View(ctx, {'T1': 'O3', 'T2': 'O3', 'T3': 'O3'}), bindings, only=('asefile::parse::parse_chunk_type',))
+
+    common.arm_state_independence(ctx, 'O3')
+    common.rejection_inventory(ctx, 'O3')
 
     # ---------------- O4 lookups / iteration
     lb = ctx.anchor('asefile::file::AsepriteFile::layer_by_name')
@@ -439,6 +457,24 @@ def run(ctx):
         if gb is not None:
             t = res(gb).ret()
             ok = t[0] == 'call' and t[1] == 'core::slice::get' and is_param_path(t[2][0], 1, [fld]) and is_param(strip_casts(t[2][1]), 2)
+            if not ok:
+                # second spelling: `if id >= self.num_tags() { None } else { Some(self.tag(id)) }` - None exactly at and beyond the count
+                # (a `>` there panics for id == count: seed C01-n), Some(the strict accessor of the same id) below it
+                def is_cnt(x):
+                    x = strip_casts(x)
+                    return (x[0] == 'call' and x[1] == 'asefile::file::AsepriteFile::num_' + fld and is_param(x[2][0], 1)) or \
+                        (x[0] == 'call' and x[1] in T.LEN and is_param_path(x[2][0], 1, [fld]))
+                ds = [(t_, bb_) for (l_, pj_, t_, bb_, sp_) in q.defs_in(gb, gb.cfg.reach) if l_ == 0 and not pj_]
+                none_ok = some_ok = 0
+                for t_, bb_ in ds:
+                    facts = q.facts_at(gb, bb_)
+                    if t_[0] == 'agg' and t_[2] == 'None':
+                        none_ok += any(op == 'Ge' and is_param(l_, 2) and is_cnt(r_) for op, l_, r_ in facts)
+                    elif t_[0] == 'agg' and t_[2] == 'Some':
+                        pl = dict(t_[3])['0']
+                        strict = pl[0] == 'call' and pl[1] == 'asefile::file::AsepriteFile::' + fld[:-1] and is_param(pl[2][0], 1) and is_param(strip_casts(pl[2][1]), 2)
+                        some_ok += strict and any(op == 'Lt' and is_param(l_, 2) and is_cnt(r_) for op, l_, r_ in facts)
+                ok = len(ds) == 2 and none_ok == 1 and some_ok == 1
             ctx.inst('O4', fn.split('::')[-1], ok, 'returns %s; must be self.%s.get(id)' % (show(t)[:100], fld), gb.span, key=fn + '|O4')
     li = ctx.anchor('asefile::<file::LayersIter as std::iter::Iterator>::next')
     if li is not None:
